@@ -93,12 +93,19 @@ pub fn check(c: &Case) -> Verdict {
 fn run(eng: &Engine, a: &Args) {
     let n = if a.tier == Tier::Quick { 300 } else { 3000 };
     let tier = a.tier;
+    // regression input of the repaired 32-bit sum (known_findings.json, fixed: C15): timestamps 1, 4e9, 1, 4e9
+    let scripts: Vec<Vec<u8>> = (0..4).map(|i| vec![0x51 + i as u8]).collect();
+    let mut reg = vpmodel::spec::chain_from_scripts(vpmodel::chain::Coin::Bitcoin, &scripts, &[1000], 1, 1, 0, 1);
+    for (b, t) in reg.blocks.iter_mut().zip([1u32, 4_000_000_000, 1, 4_000_000_000]) {
+        b.time = t;
+    }
+    eng.enumerate("fixed-defect-regressions", vec![Case { chain: reg, start_sel: None, end_sel: None }], check);
     eng.explore("stats-vs-recomputation", scaled(n, a), move || strategy(tier), check);
 }
 
 fn replay(part: &str, case: serde_json::Value) -> Option<Verdict> {
     match part {
-        "stats-vs-recomputation" => Some(check(&serde_json::from_value(case).ok()?)),
+        "stats-vs-recomputation" | "fixed-defect-regressions" => Some(check(&serde_json::from_value(case).ok()?)),
         _ => None,
     }
 }
